@@ -36,7 +36,7 @@ Definition kind_dec0 (k : nkind) : option rdec :=
                 (match t with 0%N => None | _ => Some (CFixed s_NoResponse, DNone) end))
   | KSplitValue op sv => Some (mkDec false op WNone (render_result (Some sv)) [] [] wild0 None)
   | KSplitGroup sv => Some (mkDec false s_contact_groups WNone (render_result (Some sv)) [] [] wild0 None)
-  | KRandom sv => None
+  | KRandom sv => Some (mkDec true [] WNone (render_result (Some sv)) [] [] wild0 None)
   | KEnterFlow _ =>
     Some (mkDec false s_child_run_status WNone None
                 [(s_has_only_text, [Some s_completed], 0); (s_has_only_text, [Some s_expired], 1)]
@@ -115,9 +115,14 @@ Definition sheet_bases (rows : list crow) : list str :=
 Definition gnameb (bases : list str) (n : str) : bool :=
   str_eqb n s_Other || existsb (fun b => existsb (fun k => str_eqb n (b ++ alts k)) (seq 0 (S (length n)))) bases.
 
-(* an explicit category name must not be one of them, nor "No Response" *)
+(* the name RandomRouter.add_choice gives a bucket: the category name, else the value, else "Bucket <n>" *)
+Definition bucket_name (c : econd) : str := or_default (c_cname c) (c_value c).
+
+(* an explicit category name must not be one of them, nor "No Response"; an explicit bucket name does not look like an
+   invented one *)
 Definition edge_okb (bases : list str) (e : redge) : bool :=
-  match c_cname (e_cond e) with [] => true | nm => negb (gnameb bases nm) && negb (str_eqb nm s_NoResponse) end.
+  match c_cname (e_cond e) with [] => true | nm => negb (gnameb bases nm) && negb (str_eqb nm s_NoResponse) end
+  && negb (starts_with s_Bucket (bucket_name (e_cond e))).
 
 Definition row_okb (bases : list str) (cr : crow) : bool :=
   edges_agreeb (r_edges (cr_row cr)) &&
@@ -129,8 +134,7 @@ Definition row_okb (bases : list str) (cr : crow) : bool :=
       eclass_eqb cls (kind_cls (cr_kind cr)) && rdec_eqb_shallow dec0 (kind_dec0 (cr_kind cr))
       && match cr_kind cr with
          | KBasic1 | KBasic2 => Nat.leb (length acts) 1
-         | KRandom _ => false
-         | KWait _ _ | KSplitValue _ _ | KSplitGroup _ => match acts with [] => true | _ => false end
+         | KWait _ _ | KSplitValue _ _ | KSplitGroup _ | KRandom _ => match acts with [] => true | _ => false end
          | KEnterFlow _ | KWebhook _ | KAirtime _ => Nat.eqb (length acts) 1
          end
     | _, _ => false
@@ -162,9 +166,12 @@ Definition gen_ok (c : econd) : Prop :=
 
 (* what the simulation needs of an edge condition: the code's arguments are the reference's; the category is
    unnamed and its invented name lies in G, or named with a name outside G *)
+Definition is_bucket_name (n : str) : Prop := exists k, n = s_Bucket ++ dec_nat k.
+
 Definition cond_ok (c : econd) : Prop :=
   row_args c = ref_args c /\ noop_args c = ref_args c /\
-  match c_cname c with [] => gen_ok c | nm => ~ gname nm /\ nm <> s_NoResponse end.
+  match c_cname c with [] => gen_ok c | nm => ~ gname nm /\ nm <> s_NoResponse end /\
+  ~ is_bucket_name (bucket_name c).
 
 (* ---------------------------------------------------------------- the simulation relation *)
 
@@ -203,6 +210,19 @@ Record dec_sim (phi : list cluster) (uu : list id) (d : rdec) (r : cswitch) : Pr
   ds_cases : Forall2 (case_sim (map cc_uuid (sw_all_cats r))) (rd_cases d) (sw_cases r);
   ds_uuids : NoDup (map cc_uuid (sw_all_cats r)) }.
 
+(* a random split: buckets only; the i-th bucket, when the sheet does not name it, is called "Bucket <i+2>" *)
+Definition bucket_sim (phi : list cluster) (uu : list id) (ix : nat * (cname * dest)) (c : ccat) : Prop :=
+  match fst (snd ix) with
+  | CFixed s => s = cc_name c /\ ~ is_bucket_name s
+  | CWild => cc_name c = s_Bucket ++ dec_nat (fst ix + 2)
+  end /\ dest_sim phi uu (snd (snd ix)) (cat_dest c).
+
+Record rand_sim (phi : list cluster) (uu : list id) (d : rdec) (r : crandom) : Prop := {
+  rs_random : rd_random d = true;
+  rs_result : rd_result d = render_result (rr_result r);
+  rs_cats : Forall2 (bucket_sim phi uu) (number_from 0 (rd_cats d)) (rr_cats r);
+  rs_uuids : NoDup (map cc_uuid (rr_cats r)) }.
+
 (* every case of the decision leads to one of its own (non-default) categories: routers that only grow by add_case *)
 (* ... whose default category has a name the sheet leaves open ("Other") and whose No Response category is called so *)
 Definition plain_dec (d : rdec) : Prop :=
@@ -224,6 +244,7 @@ Definition class_ok (cls : eclass) (rt : rowtype) (b : cbody) : Prop :=
   | EWait, BSwitch SPlain _ => rt = RTOther
   | ESplit, BSwitch SPlain _ => rt = RTSplitValue
   | EGroup, BSwitch SPlain _ => rt = RTSplitGroup
+  | ERandom, BRandom _ => rt = RTOther
   | EFlow, BSwitch SEnter _ => True
   | EOutcome, BSwitch SOutcome _ => True
   | _, _ => False
@@ -237,6 +258,9 @@ Inductive node_sim (phi : list cluster) (uu : list id) : rnode -> cnode -> optio
 | NS_router n nd cls r d :
     rn_dec n = Some d -> cn_body nd = BSwitch cls r -> map snd (cn_actions nd) = rn_actions n ->
     dec_sim phi uu d r -> shape_ok cls d -> node_sim phi uu n nd None
+| NS_random n nd r d :
+    rn_dec n = Some d -> cn_body nd = BRandom r -> map snd (cn_actions nd) = rn_actions n ->
+    rand_sim phi uu d r -> node_sim phi uu n nd None
 | NS_implicit n nd e nr r d :
     rn_dec n = Some d -> cn_body nd = BBasic e -> map snd (cn_actions nd) = rn_actions n ->
     x_dest e = Some (cn_uuid nr) -> cn_uuid nr <> hard_exit_sentinel ->
